@@ -235,6 +235,10 @@ def run(prop, tier, seed, replay):
         rr = (ra[c0] + nprng.uniform(-ext, ext, k)) % (2 * np.pi)
         dd_ = np.clip(dec[c0] + nprng.uniform(-ext, ext, k), -np.pi / 2, np.pi / 2)
         w = nprng.uniform(0.5, 2, k) if rng.random() < 0.5 else None
+        if w is not None:
+            # the overall scale of the weights is arbitrary (probabilities, likelihoods, counts): it cycles over 40 decades
+            w = w * [1.0, 1e-20, 1e20, 3e-12, 1e-30][_ % 5]
+            ck.count("mean:weight-scale=%g" % [1.0, 1e-20, 1e20, 3e-12, 1e-30][_ % 5])
         pts = AngularCoordinates(np.column_stack([rr, dd_]))
         mean = attempt(lambda: pts.mean(w), "mean", {"ra": rr.tolist(), "dec": dd_.tolist()})
         if mean is None:
